@@ -31,7 +31,7 @@ MANIFEST = {
             "zero/sign extension of the field's bits as C reads it, and no shift count in the two C functions is "
             "outside [0,64). The mask/shift/bound expressions and the full-width early return inside the model are "
             "regenerated from _cffi_backend.c on every run; the hand-written control structure is tied to the code by "
-            "differential execution on cdef-built structs, and the C-side value by a gcc-compiled accessor library.",
+            "differential execution on cdef-built structs and unions of bit-fields, and the C-side value by a gcc-compiled accessor library.",
     "note": "Trusted: Lean kernel; the C-expression translator (translate/cexpr.py, bitfield.py); x86-64 semantics of "
             "variable shifts (count mod 64) as the model of what gcc emits -- the theorem shifts_in_range shows the "
             "model never relies on it; PyLong_AsLongLong / read_raw_*/write_raw_integer_data are modelled by hand "
@@ -41,7 +41,8 @@ MANIFEST = {
 }
 
 RULE = ("placements = (integer type, width, leading-bits, leading-char) sampled from all 8 integer types x widths "
-        "1..8*size (all widths visited in the thorough tier) plus _Bool:1; values = fmin-1, fmin, -1, 0, 1, fmax, "
+        "1..8*size (all widths visited in the thorough tier) plus _Bool:1, plus unions of bit-fields whose member "
+        "under test follows a member of width 1, 3, 7 or 8*size-1; values = fmin-1, fmin, -1, 0, 1, fmax, "
         "fmax+1, +-2^63, +-2^64, random in-range and random up to 70 bits; a case (placement, value class) is "
         "non-trivial when the field shares its storage unit with other bits or the value is within 1 of a bound; "
         "distinct = distinct (type, width, shift, value class)")
